@@ -24,8 +24,10 @@ def gen(seed, tier):
             d = rng.choice([1, 2, 2, 3, 3])
             dflt = rng.choice([0, 0, 7])
             n = rng.choice([2, 3, 4])
+            # every third tree is rich in empty sub-fibers (several of them next to non-empty ones)
+            extra = {"p_emptysub": 0.35} if i % 3 == 2 else {}
             yield {"prop": PROP, "op": "ctor", "ctor": ctor, "d": d, "dflt": dflt, "n": n,
-                   "t": H.gen_tree(rng, d, n, HI.POOL, dflt), "cseed": rng.randrange(1 << 30),
+                   "t": H.gen_tree(rng, d, n, HI.POOL, dflt, **extra), "cseed": rng.randrange(1 << 30),
                    # which tensor is observed: the result, or the tensor the result was made from (it must
                    # still mirror its own tree after having served as an operand)
                    "observe": rng.choice(["result", "result", "source"])}
@@ -195,7 +197,7 @@ def run(case):
     case["impl"] = HI.run_history(case, ALPHABET, True)
     for st in case["impl"]:
         m = st.get("mirror", "")
-        if m and "owner" in m or "chain" in m:
+        if m and ("owner" in m or "chain" in m or "twice" in m or "two positions" in m):
             side["owners_and_chain: " + m] = False
     case["side"] = side
     return case
